@@ -327,7 +327,7 @@ public:
          {
             auto const&  acc = ri.access[ a];
             os << (a ? " vs " : " ") << (acc.atomic ? "atomic " : "") << (acc.write ? "write" : "read") << "(" << acc.size << ") in "
-               << sim::symbolizePc( acc.pc[ 0]);
+               << sim::symbolizeAccess( acc.pc, 4);
          }
          res.fail( "RACE", "data-race", os.str());
       }
